@@ -1,5 +1,6 @@
 """C16 -- sensor model: DN stay in range; binning and mosaicking conserve signal."""
 import ast
+import re
 from fractions import Fraction
 
 from ..core.db import AnalysisError, norm_stmt, walk_no_nested
@@ -40,11 +41,28 @@ def clamp_rules(run, db):
     it._reset_run([])
     upper = lower = fwc = None
     scale_line = None
+    # roles, not spellings: the ADC output is the array that is cast; it is defined as (input to the ADC) * (gain scaling)
+    outs = {ast.unparse(c.value.func.value) for c in casts if isinstance(c.value.func.value, ast.Name)}
+    if len(outs) != 1:
+        raise AnalysisError('expose: the array handed to the integer cast is not one local (%s)' % sorted(outs))
+    OUT = sorted(outs)[0]
+    outdef = [st for st in stmts if isinstance(st, ast.Assign) and isinstance(st.targets[0], ast.Name) and st.targets[0].id == OUT and isinstance(st.value, ast.BinOp)
+              and isinstance(st.value.op, (ast.Mult, ast.Div)) and st.lineno < first_cast]
+    masked = {ast.unparse(st.targets[0].value) for st in mask_stores}
+    INP = SCALEX = None
+    if len(outdef) == 1:
+        ops = [outdef[0].value.left, outdef[0].value.right]
+        inp = [o_ for o_ in ops if isinstance(o_, ast.Name) and o_.id in masked]
+        if len(inp) == 1:
+            INP = inp[0].id
+            SCALEX = [o_ for o_ in ops if o_ is not inp[0]][0]
+            scale_line = outdef[0].lineno
     for st in stmts:
-        if isinstance(st, ast.Assign) and isinstance(st.targets[0], ast.Name) and st.targets[0].id in ('adc_cap', 'scaling'):
-            fr.env[st.targets[0].id] = it.ev(st.value, fr)
-        if isinstance(st, ast.Assign) and isinstance(st.targets[0], ast.Name) and st.targets[0].id == 'output' and 'scaling' in ast.unparse(st.value):
-            scale_line = st.lineno
+        if isinstance(st, ast.Assign) and isinstance(st.targets[0], ast.Name) and st.lineno < first_cast:
+            try:
+                fr.env[st.targets[0].id] = it.ev(st.value, fr)
+            except Exception:
+                fr.env[st.targets[0].id] = Unknown('not evaluated')
     for st in mask_stores:
         tgt = st.targets[0]
         arr = ast.unparse(tgt.value)
@@ -54,11 +72,11 @@ def clamp_rules(run, db):
         bound = it.ev(cmp_.comparators[0], fr)
         val = it.ev(st.value, fr)
         rb, rv = dom.rat(bound), dom.rat(val)
-        if arr == 'output' and op in ('Gt', 'GtE'):
+        if arr == OUT and op in ('Gt', 'GtE'):
             upper = (st, same_arr, rb, rv)
-        elif arr == 'output' and op in ('Lt', 'LtE'):
+        elif arr == OUT and op in ('Lt', 'LtE'):
             lower = (st, same_arr, rb, rv)
-        elif arr == 'input_to_adc' and op in ('Gt', 'GtE'):
+        elif arr == INP and op in ('Gt', 'GtE'):
             fwc = (st, same_arr, rb, rv)
     if upper is None and lower is None:
         raise AnalysisError('expose: ADC clamp statements not found')
@@ -83,7 +101,12 @@ def clamp_rules(run, db):
         st, same, rb, rv = fwc
         ok = same and rb is not None and rv is not None and rb == rv and rb == Rat(R.atom('fwc')) and (scale_line is None or st.lineno < scale_line)
         run.check(ok, 'C16.clamp', f.qual, 'full well', 'charge above the full-well capacity is clipped to it before the gain is applied', 'full-well clip is not input[input > fwc] = fwc before scaling', f.loc(st))
-    sc = dom.rat(fr.env.get('scaling'))
+    sc = None
+    if SCALEX is not None:
+        it._reset_run([])
+        sc = dom.rat(it.ev(SCALEX, fr))
+        if sc is not None and isinstance(outdef[0].value.op, ast.Div):
+            sc = 1 / sc
     run.check(sc is not None and sc == 1 / Rat(R.atom('gain')), 'C16.clamp', f.qual, 'gain', 'DN = electrons / conversion_gain', 'gain scaling is %s' % (sc.key() if sc is not None else None), f.loc())
     # container ladder: bits <= K selects uintK
     ladder = []
@@ -152,11 +175,19 @@ def bayer_rules(run, db):
     for fname, kind in (('decomposite_bayer', k_decomp), ('recomposite_bayer', k_recomp), ('composite_bayer', k_comp), ('wb_prescale', k_wb)):
         fi = db.func(B + fname)
         tabs = _branch_tables(fi, kind)
+        canon = {}
+        if fname == 'decomposite_bayer':
+            # the colour of a plane is its position in the returned tuple (r, g1, g2, b), not the spelling of the local
+            rets = [n for n in walk_no_nested(fi.node) if isinstance(n, ast.Return) and isinstance(n.value, ast.Tuple) and len(n.value.elts) == 4
+                    and all(isinstance(e, ast.Name) for e in n.value.elts)]
+            if len(rets) != 1:
+                raise AnalysisError('decomposite_bayer: does not return four named planes')
+            canon = dict(zip([e.id for e in rets[0].value.elts], ('r', 'g1', 'g2', 'b')))
         for cfa in ('rggb', 'bggr'):
             tab = tabs.get(cfa)
             if not tab:
                 raise AnalysisError('%s: branch for %s not found' % (fname, cfa))
-            flat = {k: (v[0] if len(v) == 1 else v) for k, v in tab.items()}
+            flat = {canon.get(k, k): (v[0] if len(v) == 1 else v) for k, v in tab.items()}
             run.check(flat == REF[cfa], 'C16.bayer', fi.qual, '%s table' % cfa, '%s[%s]: colour->site map equals the layout %s' % (fname, cfa, REF[cfa]),
                       '%s with cfa=%s maps %s, expected %s: samples change colour plane / position' % (fname, cfa, flat, REF[cfa]), fi.loc())
     # demosaic_malvar: native sites copied from the mosaic, interpolated sites from the right estimate
@@ -165,6 +196,30 @@ def bayer_rules(run, db):
     def k_mal(st):
         if isinstance(st, ast.Assign) and isinstance(st.targets[0], ast.Subscript) and isinstance(st.value, ast.Subscript) and ast.unparse(st.targets[0].slice) in SITES:
             return [('%s@%s' % (ast.unparse(st.targets[0].value), ast.unparse(st.targets[0].slice)), '%s[%s]' % (ast.unparse(st.value.value), ast.unparse(st.value.slice)))]
+    # roles: the planes by their position in the returned stack (red, green, blue); the estimates by the kernel they are convolved with
+    st_ = [n for n in walk_no_nested(fi.node) if isinstance(n, ast.Return) and isinstance(n.value, ast.Call) and ast.unparse(n.value.func).endswith('stack') and n.value.args
+           and isinstance(n.value.args[0], (ast.Tuple, ast.List)) and len(n.value.args[0].elts) == 3 and all(isinstance(e, ast.Name) for e in n.value.args[0].elts)]
+    if len(st_) != 1:
+        raise AnalysisError('demosaic_malvar: does not return a stack of three named planes')
+    mcanon = dict(zip([e.id for e in st_[0].value.args[0].elts], ('red', 'green', 'blue')))
+    kname_of = {}
+    for st in fi.node.body:
+        if isinstance(st, ast.Assign) and isinstance(st.value, ast.BinOp) and 'np.array(' in ast.unparse(st.value.left) and isinstance(st.targets[0], ast.Name):
+            kname_of[st.targets[0].id] = ast.unparse(st.value.left.args[0])
+    est_role = {'kernel_G_at_R_or_B': 'Gest', 'kernel_R_at_G_in_RB': 'c1', 'kernel_R_at_G_in_BR': 'c2', 'kernel_R_at_B_in_BB': 'c3'}
+    for st in fi.node.body:
+        if isinstance(st, ast.Assign) and isinstance(st.value, ast.Call) and ast.unparse(st.value.func).endswith('convolve') and isinstance(st.targets[0], ast.Name) and len(st.value.args) >= 2:
+            role = est_role.get(kname_of.get(ast.unparse(st.value.args[1])))
+            if role:
+                mcanon[st.targets[0].id] = role
+    for st in fi.node.body:          # plain aliases (green = Gest)
+        if isinstance(st, ast.Assign) and isinstance(st.value, ast.Name) and isinstance(st.targets[0], ast.Name) and st.value.id in mcanon and st.targets[0].id in mcanon:
+            pass
+    cn = lambda nme: mcanon.get(nme, nme)
+
+    def k_mal(st):          # noqa: F811  (canonical names)
+        if isinstance(st, ast.Assign) and isinstance(st.targets[0], ast.Subscript) and isinstance(st.value, ast.Subscript) and ast.unparse(st.targets[0].slice) in SITES:
+            return [('%s@%s' % (cn(ast.unparse(st.targets[0].value)), ast.unparse(st.targets[0].slice)), '%s[%s]' % (cn(ast.unparse(st.value.value)), ast.unparse(st.value.slice)))]
     tabs = _branch_tables(fi, k_mal)
     ref_rggb = {'red@top_left': 'img[top_left]', 'red@top_right': 'c1[top_right]', 'red@bottom_left': 'c2[bottom_left]', 'red@bottom_right': 'c3[bottom_right]',
                 'blue@top_left': 'c3[top_left]', 'blue@top_right': 'c2[top_right]', 'blue@bottom_left': 'c1[bottom_left]', 'blue@bottom_right': 'img[bottom_right]'}
@@ -214,12 +269,17 @@ def bayer_rules(run, db):
     for st in fi.node.body:
         if isinstance(st, ast.Assign) and isinstance(st.value, ast.BinOp) and 'np.array(' in ast.unparse(st.value.left):
             names[ast.unparse(st.targets[0])] = ast.unparse(st.value.left.args[0])
-    ok = {k: names.get(v[1]) for k, v in wires.items()} == {'Gest': 'kernel_G_at_R_or_B', 'c1': 'kernel_R_at_G_in_RB', 'c2': 'kernel_R_at_G_in_BR', 'c3': 'kernel_R_at_B_in_BB'} and all(v[0] == 'img' for v in wires.values())
+    ok = sorted(names.get(v[1]) or '?' for v in wires.values()) == sorted(est_role) and all(v[0] == 'img' for v in wires.values())
+    # the green plane starts as the green estimate
+    gsrc = [st for st in fi.node.body if isinstance(st, ast.Assign) and isinstance(st.targets[0], ast.Name) and mcanon.get(st.targets[0].id) == 'green']
+    ok = ok and len(gsrc) == 1 and isinstance(gsrc[0].value, ast.Name) and mcanon.get(gsrc[0].value.id) == 'Gest'
     run.check(ok, 'C16.bayer', fi.qual, 'estimates', 'Gest/c1/c2/c3 are the mosaic convolved with their kernels', 'estimate wiring changed: %s' % {k: names.get(v[1]) for k, v in wires.items()}, fi.loc())
     # deinterlace
     fd = db.func(B + 'demosaic_deinterlace')
-    src = ast.unparse(fd.node).replace(' ', '')
-    run.check('r,g1,g2,b=decomposite_bayer(img,cfa)' in src and 'g=(g1+g2)/2' in src and 'np.stack([r,g,b],axis=2)' in src, 'C16.bayer', fd.qual, 'deinterlace', 'r, mean of the two greens, b stacked on the last axis',
+    from ..core.pattern import match_all
+    okd = any(match_all(fd.node, ['V_r, V_g1, V_g2, V_b = decomposite_bayer(img, cfa)', avg, 'return np.stack([V_r, V_g, V_b], axis=2)'], ordered=True) is not None
+              for avg in ('V_g = (V_g1 + V_g2) / 2', 'V_g = (V_g2 + V_g1) / 2', 'V_g = 0.5 * (V_g1 + V_g2)', 'V_g = (V_g1 + V_g2) * 0.5'))
+    run.check(okd, 'C16.bayer', fd.qual, 'deinterlace', 'r, mean of the two greens, b stacked on the last axis',
               'demosaic_deinterlace no longer stacks [r, (g1+g2)/2, b]', fd.loc())
 
 
@@ -350,7 +410,7 @@ def bin_rules(run, db):
         if not res:
             raise AnalysisError('tile(%s): no returning path' % scaling)
         for p in res:
-            if any(t is False and 'sf != 1' in c for c, t in p.conds) and want_sf is not None:
+            if any(t is False and re.match(r'^\w+\s*!=\s*1$', c.strip()) for c, t in p.conds) and want_sf is not None:
                 continue        # sf == 1 (unit factors): skipping the multiplication is the same thing
             v = p.value
             sf = None
